@@ -94,6 +94,17 @@ claim("C10", "exploration",
       "reference replacement are compared after every update.  Sampled.",
       TB + " sklearn NearestNeighbors and scipy.stats.norm trusted.", "DESIGN.md 4 (C10)")
 
+claim("C07", "exploration",
+      "runtime monitoring: epoch-local executable specification of HDDDM/CDBD stepped in lock-step, recording user-divergence "
+      "probe, numpy RNG tap for the bootstrap estimate, metamorphic twin detectors for the distance axioms",
+      "Hundreds (thousands thorough) of reference + batch sequences over detector x divergence (Hellinger / JS / user probe) x "
+      "detect_batch x statistic x significance x subsets with explicit set_reference calls mid-run; after every call every "
+      "published quantity (state, distances, epsilons, thresholds, beta, epsilon list, reference, feature_epsilons, feature_info, "
+      "counters) is compared with an independent specification; the bootstrap estimate is recomputed from the logged row draws; "
+      "the probe sees the histograms at the library boundary (bin count, every point held); identity / symmetry / bound axioms "
+      "on twin detectors.  Sampled.",
+      TB + " numpy.histogram, scipy t-quantile and jensenshannon trusted.", "DESIGN.md 4 (C07)")
+
 NOT_YET = "check not built yet in this revision of /verif (planned: see DESIGN.md section 4); nothing is claimed for it"
 
 
